@@ -165,12 +165,12 @@ var oracle = vk.Register("conv", func(c Case) *vk.Verdict {
 
 // reduce drops declarations / main statements while the same class persists.
 func reduce(p *gosub.Program, class string) string {
-	cur := &gosub.Program{Decls: append([]string(nil), p.Decls...), Main: append([]string(nil), p.Main...)}
+	cur := &gosub.Program{Decls: append([]string(nil), p.Decls...), Main: append([]string(nil), p.Main...), AfterMain: p.AfterMain}
 	for round := 0; round < 3; round++ {
 		n := len(cur.Decls) + len(cur.Main)
 		var cands []*gosub.Program
 		for i := 1; i < n; i++ {
-			q := &gosub.Program{}
+			q := &gosub.Program{AfterMain: cur.AfterMain}
 			for j, d := range cur.Decls {
 				if j != i {
 					q.Decls = append(q.Decls, d)
